@@ -73,6 +73,7 @@ type group struct {
 	tokens      []string // tokens granted to the user in this epoch (logged out at the end)
 	events      []map[string]interface{}
 	needsReset  bool
+	staleSig    string
 	selRefused  bool
 }
 
@@ -395,6 +396,9 @@ func (g *group) runCell(r *rpcCase) {
 			return
 		}
 		sig := signature(k, db, sv, r.key())
+		if g.staleSig != "" && sv.st != "valid" && sig[:14] != "systemdb-write" {
+			sig = g.staleSig // history replay: a request authorised by a session / token the policy considers dead
+		}
 		if len(w.badLines) == 0 || w.badLines[len(w.badLines)-1] != line {
 			w.badLines = append(w.badLines, line)
 		}
